@@ -6,7 +6,7 @@
    behaviour expu of Path.expanduser (a path, RuntimeError or ValueError), for all texts over all
    code points.  Path.home() failing is the single excluded case (see C11_total_home_refuted). *)
 From DippyV Require Import Base.Str Gen.Tables Model.ConfigText
-  Proofs.ConfigTextP Proofs.ConfigRoundP Proofs.C11P.
+  Proofs.ConfigTextP Proofs.ConfigRoundP Proofs.C11P Proofs.CfgFnP.
 
 (* the model's directive table, setting names, line separator and escapable characters are the ones
    the translator reads out of config.py on every run *)
@@ -141,6 +141,34 @@ Theorem C11_roundtrip_legacy_refuted : exists h expu v,
             /\ c_rules c = [mkrule $"deny" ($"rm " ++ [DQ; 97]) None false].
 Proof. exact (ex_intro _ _ (ex_intro _ eu_nosuchuser (ex_intro _ v_ls legacy_roundtrip_refuted))). Qed.
 Print Assumptions C11_roundtrip_legacy_refuted.
+
+(* ---- the helpers tied function by function (entry cfg_fn, harness/cfgfuncs.py) ------------------------------------
+   _strip_exact_anchor, complete: the anchor is the last character; what precedes it loses its trailing white space *)
+Theorem C11_anchor : forall p,
+  (ends_with_bar p = true -> exists q, p = q ++ [BAR] /\ strip_exact_anchor p = (rstrip_ws q, true)) /\
+  (ends_with_bar p = false -> strip_exact_anchor p = (p, false)).
+Proof. exact anchor_spec. Qed.
+Print Assumptions C11_anchor.
+(* the grammar of `set`: exactly three forms are accepted (key compared lower-cased with - read as _) ... *)
+Theorem C11_setting_grammar : forall expu g rest e, apply_setting expu g rest = Ok e ->
+  exists k more, split1 rest = k :: more /\
+    ((e = ESet SLogFull /\ norm_key k = $"log_full" /\ more = []) \/
+     (exists v, e = ESet (SDefault v) /\ norm_key k = $"default" /\ first_value more = Some v /\ (v = $"allow" \/ v = $"ask")) \/
+     (exists v p, e = ESet (SLog p) /\ norm_key k = $"log" /\ first_value more = Some v /\ expu v = EUOk p)).
+Proof. exact setting_sound. Qed.
+Print Assumptions C11_setting_grammar.
+(* ... and the two forms that need no oracle are always accepted *)
+Theorem C11_setting_complete : forall expu g rest k,
+  (split1 rest = [k] -> norm_key k = $"log_full" -> apply_setting expu g rest = Ok (ESet SLogFull)) /\
+  (forall v more, split1 rest = k :: v :: more -> norm_key k = $"default" -> (v = $"allow" \/ v = $"ask") ->
+     apply_setting expu g rest = Ok (ESet (SDefault v))).
+Proof. exact setting_complete. Qed.
+Print Assumptions C11_setting_complete.
+(* the only token kind parse_config acts on: `~` or `~/...` without `://` *)
+Theorem C11_classify_home : forall t,
+  classify_token t = KHome <-> infixb $"://" t = false /\ (str_eqb t $"~" || prefixb $"~/" t) = true.
+Proof. exact classify_home. Qed.
+Print Assumptions C11_classify_home.
 
 (* ---------------------------------------------------------------- a broken config never allows *)
 (* whichever layer is unusable (permission, other OSError, undecodable bytes, anything else) and
